@@ -106,3 +106,44 @@ def subsets(items, maxsize=None):
 def random_subset(rng, items, p=None):
     p = rng.choice([0.0, 0.15, 0.3, 0.5]) if p is None else p
     return [x for x in items if rng.random() < p]
+
+
+# ---- scale: thresholds and cut-offs ("only above N children / levels / nodes / lines") are invisible to small trees
+BIG_WIDTHS = (17, 33, 65, 130, 260)
+BIG_DEPTHS = (17, 33, 65, 130, 260)
+
+
+def deep_labels(t):
+    """labels along one deepest root-to-leaf path of a labelled tree"""
+    out = []
+    while True:
+        out.append(t[0])
+        if not t[1]:
+            return out
+        t = max(t[1], key=tree_height)
+
+
+def big_shapes(rng, tier, max_nodes=None):
+    """a few large shapes per run: stars, chains, brooms, two-level fans, a bushy random tree; sizes straddle the usual
+    cut-offs (16, 32, 64, 128, 256 - CPython caches the ints up to 256, so `is` on counters breaks at 257). quick: 33, 260 and one more size per kind; thorough: all."""
+    out = []
+    widths = list(BIG_WIDTHS) if tier != "quick" else sorted({33, 260, rng.choice(BIG_WIDTHS[:4])})
+    depths = list(BIG_DEPTHS) if tier != "quick" else sorted({33, 260, rng.choice(BIG_DEPTHS[:4])})
+    for w in widths:
+        out.append([[] for _ in range(w)])                                   # star
+        out.append([[[] for _ in range(3)] if i % 5 == 0 else [] for i in range(w)])   # wide fan with some grandchildren
+    for d in depths:
+        sh = []
+        for _ in range(d):
+            sh = [sh]
+        out.append(sh)                                                       # chain of depth d
+        sh = [[], [], []]
+        for i in range(d):
+            sh = [sh] if i % 7 else [[], sh, []]
+        out.append(sh)                                                       # deep spine with side twigs, broom at the bottom
+    n = rng.choice([150, 300]) if tier == "quick" else 600
+    out.append(random_shape(rng, n, "attach"))
+    out.append(random_shape(rng, n, "deep"))
+    if max_nodes is not None:
+        out = [s for s in out if _count(s) <= max_nodes]
+    return out
